@@ -2,10 +2,10 @@
 package lexer
 
 import (
+	"bytes"
 	"errors"
 	"fmt"
 	"io"
-	"strings"
 
 	"github.com/moorara/algo/grammar"
 	"github.com/moorara/algo/lexer"
@@ -64,12 +64,18 @@ type Lexer struct {
 // EBNF (Extended Backus-Naur Form) is used to define context-free grammars and their corresponding languages.
 func New(filename string, src io.Reader) (*Lexer, error) {
 	// The input reader reports the end of input one character early (as soon as the last character has been read),
-	// and retracting that character does not bring it back. It also takes any short read for the end of input.
-	// Terminating the source with a newline, which is skipped like any other newline, and always reading full blocks
-	// ensures that no character of the source is ever lost.
-	src = fullReader{io.MultiReader(src, strings.NewReader("\n"))}
+	// and retracting that character does not bring it back. It also takes any short read for the end of input,
+	// and it loads the next block a second time when a character at the end of a buffer half is retracted and read again.
+	// Terminating the source with a newline, which is skipped like any other newline,
+	// and using a buffer that holds the whole source ensures that no character of the source is ever lost.
+	data, err := io.ReadAll(src)
+	if err != nil {
+		return nil, err
+	}
 
-	in, err := input.New(filename, src, bufferSize)
+	data = append(data, '\n')
+
+	in, err := input.New(filename, bytes.NewReader(data), max(bufferSize, len(data)+1))
 	if err != nil {
 		return nil, err
 	}
@@ -77,20 +83,6 @@ func New(filename string, src io.Reader) (*Lexer, error) {
 	return &Lexer{
 		in: in,
 	}, nil
-}
-
-// fullReader reads from the underlying reader until the given buffer is full or the end of input is reached.
-type fullReader struct {
-	r io.Reader
-}
-
-func (f fullReader) Read(p []byte) (int, error) {
-	n, err := io.ReadFull(f.r, p)
-	if err == io.ErrUnexpectedEOF {
-		err = nil
-	}
-
-	return n, err
 }
 
 // NextToken scans the input stream until it recognizes a valid token, which it then returns.
